@@ -206,13 +206,16 @@ pub fn judge(sc: &C01, tail: &[u8], input: &[u8], msg_lens: &[usize], rest_of_re
     (false, String::new(), String::new())
 }
 
-pub fn run_stream(sc: &C01, tail: &[u8], flags: bool) -> Outcome {
+pub fn run_stream(sc: &C01, tail: &[u8], flags: bool, malformed: &str) -> Outcome {
     let k = sc.k;
     let (svc, _p) = service(&sc.msgs[..k]);
     let mut input = Vec::new();
     let mut msg_lens = Vec::new();
     for i in 0..k {
         let mut j = request_json(&sc.msgs[i]);
+        if !sc.msgs[i].parse_ok {
+            j = malformed.to_string();
+        }
         if flags && sc.msgs[i].parse_ok {
             // the _flags instance: every request carries more=true, oneway=false
             j = j.replace("\"}", "\",\"more\":true,\"oneway\":false}");
@@ -249,14 +252,14 @@ pub fn instance_of(name: &str) -> Option<(usize, &'static [u8], usize, [u8; KMAX
         "c01_k1_d" | "c01_k1_d_flags" => (1, b"t", NF, [D, D, D]),
         "c01_k1_n" => (1, b"t", NF, [N, D, D]),
         "c01_k1_e" => (1, b"t", NF, [E, D, D]),
-        "c01_k1_d_f0" | "c06_k1_malformed" => (1, b"t", 0, [D, D, D]),
+        "c01_k1_d_f0" | "c06_k1_malformed" | "c06_k1_truncated" => (1, b"t", 0, [D, D, D]),
         "c01_k2_dd" => (2, b"t", NF, [D, D, D]),
         "c01_k2_nd" => (2, b"t", NF, [N, D, D]),
         "c01_k2_dn" => (2, b"t", NF, [D, N, D]),
         "c01_k2_ed" => (2, b"t", NF, [E, D, D]),
         "c01_k2_nn" => (2, b"t", NF, [N, N, D]),
-        "c01_k2_dd_f1" | "c06_k2_second_malformed" => (2, b"t", 1, [D, D, D]),
-        "c01_k2_dd_f0" | "c06_k2_first_malformed" => (2, b"t", 0, [D, D, D]),
+        "c01_k2_dd_f1" | "c06_k2_second_malformed" | "c06_k2_second_truncated" => (2, b"t", 1, [D, D, D]),
+        "c01_k2_dd_f0" | "c06_k2_first_malformed" | "c06_k2_first_truncated" => (2, b"t", 0, [D, D, D]),
         "c01_k3_ddd" => (3, b"", NF, [D, D, D]),
         "c01_k3_dnd" => (3, b"", NF, [D, N, D]),
         "c01_k3_ddd_f2" => (3, b"", 2, [D, D, D]),
@@ -287,7 +290,9 @@ pub fn instance<S: Src>(name: &str, s: &mut S) -> Outcome {
         sc.msgs[j].parse_ok = j != fail_at;
         sc.msgs[j].target = targets[j];
     }
-    run_stream(&sc, tail, name.ends_with("_flags"))
+    // a truncated document (serde_json: EOF while parsing) or a syntax error
+    let malformed = if name.contains("truncated") { "{\"method\":" } else { "{\"method\":}" };
+    run_stream(&sc, tail, name.ends_with("_flags"), malformed)
 }
 
 /// C02 native replay: one cut point, real handle, real bytes.
